@@ -273,6 +273,8 @@ def analyse(facts, tier):
                     why='m_midiChannels.clear() on every path: the active-note lists go with the channels' if hit else
                     'resetMIDI() keeps the MIDIchannel objects (and their activenotes) alive: its callers rebuild the chip-channel table right after it, so the surviving notes refer to chip channels that no longer list them'))
     obls += r7_keyon(facts)
+    obls += r6_panic_all_keys(facts)
+    obls += r3_bank_map_after_panic(facts)
     return obls
 
 
@@ -338,4 +340,60 @@ def r7_keyon(facts):
         out.append(Obl('C04.R7', fn.name, 'return before the key-on write', loc, 'discharged' if ok else 'finding',
                        why='guard %s cannot hold: the value is an exponential' % ' ; '.join(fact_str(f) for f in gf) if ok else
                        'OPN2::noteOn returns under [%s] without writing the key-on: the caller has already registered the user, so the chip channel has a user and stays keyed off' % ' ; '.join(fact_str(f) for f in gf)[:120]))
+    return out
+
+
+def r6_panic_all_keys(facts):
+    """C04.R6 discharges every rebuild of the chip-channel table with "realTime_panic() ran first".  That needs panic() to reach every
+    key: its key loop starts at 0 and runs while key < 128 (a loop that stops at 126 leaves key 127 sounding across the rebuild)."""
+    out = []
+    pn = facts.fn('OPNMIDIplay::panic')
+    n = 0
+    for t in walk(pn.tree):
+        if not (isinstance(t, dict) and t.get('k') == 'ForStmt' and t.get('cond') is not None):
+            continue
+        c = strip(t['cond'])
+        if not (c.get('k') == 'BinaryOperator' and c.get('op') in ('<', '<=') and const_of(c.get('r')) is not None):
+            continue
+        iv = strip(c['l'])
+        uses_as_key = False
+        for x in walk(t.get('body')):
+            if isinstance(x, dict) and 'callee' in x and short(callee_name(x)) in ('noteOff', 'realTime_NoteOff'):
+                a = x.get('a', [])
+                if len(a) >= 2 and strip(a[1]).get('id') == iv.get('id'):
+                    uses_as_key = True
+        if not uses_as_key:
+            continue
+        n += 1
+        bound = const_of(c['r'])
+        ok = (c['op'] == '<' and bound == 128) or (c['op'] == '<=' and bound == 127)
+        out.append(Obl('C04.R6', pn.name, 'panic reaches every key: %s' % show(c), '%s:%s' % (pn.file, t.get('ln')), 'discharged' if ok else 'finding',
+                       why='keys 0..127' if ok else 'the key loop of panic() stops before key 127: that note survives realTime_panic() and keeps its references into the chip-channel table that is rebuilt next'))
+    if n < 1:
+        raise build.AnalysisBroken('C04.R6: key loop of panic() not found')
+    return out
+
+
+def r3_bank_map_after_panic(facts):
+    """note instruments point into the bank map (C04.R3).  LoadBank() may empty the map only after the notes that point into it were
+    dropped: m_insBanks.clear() is dominated by realTime_panic() - which also puts it behind every failing return of the parser, so a
+    rejected file leaves the old bank and the sounding notes alone."""
+    out = []
+    n = 0
+    for fn in facts.all_fns():
+        if not fn.name.startswith('OPNMIDIplay::') or fn.tree is None:
+            continue
+        for b, j, st in fn.cfg.stmts():
+            for x in calls_in(st['s']):
+                if short(callee_name(x)) == 'clear' and x.get('obj') is not None and strip(x['obj']).get('k') == 'MemberExpr' and short(strip(x['obj'])['n']) == 'm_insBanks':
+                    n += 1
+                    ok = False
+                    for b2, j2, st2 in fn.cfg.stmts():
+                        if any(short(callee_name(y)) == 'realTime_panic' for y in calls_in(st2['s'])) and ((b2 == b and j2 < j) or (b2 != b and fn.cfg.block_dominates(b2, b))):
+                            ok = True
+                    out.append(Obl('C04.R3', fn.name, 'm_insBanks.clear()', st['loc'], 'discharged' if ok else 'finding',
+                                   why='realTime_panic() runs first on every path: no note refers to a bank entry any more' if ok else
+                                   'the bank map is emptied while notes may be sounding (and before the new file is known to be valid): their instrument pointers refer to freed bank slots'))
+    if n < 1:
+        raise build.AnalysisBroken('C04.R3: m_insBanks.clear() not found')
     return out
